@@ -17,6 +17,7 @@ func init() { register("C14", c14) }
 
 func c14(r *core.Report) {
 	c14NoUnwrap(r)
+	c14FlushStatus(r)
 	p := r.Prog
 	p.BuildSSA()
 	r.Assumption("behaviour over sequences of handler calls (no write at all, the strict-mode WriteHeader(0) case) is a history property of the wrapper state machine and is not decided")
